@@ -29,8 +29,46 @@ SHRINK_CAP = {"quick": 250, "thorough": 1500}
 MAX_ROUNDS = 5
 
 
+CASE_TIMEOUT_S = int(os.environ.get("VERIF_CASE_TIMEOUT", "30"))
+MEM_LIMIT = int(os.environ.get("VERIF_MEM_LIMIT_GB", "6")) << 30
+
+
 class CaseFailure(Exception):
     pass
+
+
+class CaseTimeout(BaseException):
+    """Harness safety only: a single case exceeded CASE_TIMEOUT_S (counted as inconclusive, never a violation)."""
+
+
+def _on_alarm(signum, frame):
+    raise CaseTimeout()
+
+
+def run_body(test, case):
+    """Run one case under the watchdog."""
+    import signal
+
+    old = signal.signal(signal.SIGALRM, _on_alarm)
+    signal.alarm(CASE_TIMEOUT_S)
+    try:
+        return test.body(case)
+    except CaseTimeout:
+        return Outcome("inconclusive", kind="harness_timeout", detail=f"case exceeded {CASE_TIMEOUT_S}s")
+    except MemoryError:
+        return Outcome("inconclusive", kind="harness_memory", detail="case exceeded the memory limit")
+    finally:
+        signal.alarm(0)
+        signal.signal(signal.SIGALRM, old)
+
+
+def _limit_memory():
+    try:
+        import resource
+
+        resource.setrlimit(resource.RLIMIT_AS, (MEM_LIMIT, MEM_LIMIT))
+    except Exception:
+        pass
 
 
 class Test:
@@ -181,7 +219,7 @@ def run_shard(test, shard, n, tier, seed, known, excluded_init=()):
                 return
             case = HypCase(data)
             try:
-                out = test.body(case)
+                out = run_body(test, case)
             except Reject:
                 if state["first"] is None:
                     stats.status["rejected"] += 1
@@ -262,6 +300,7 @@ def _jsonable(o):
 def _worker(task):
     tidx, shard, n = task
     c = _CTX
+    _limit_memory()
     test = c["tests"][tidx]
     t0 = time.time()
     try:
@@ -283,7 +322,7 @@ def replay_file(prop, path, known=None):
         raise StaleReplay(f"{path}: unknown test {spec.get('test')!r}")
     case = ReplayCase(spec["choices"])
     try:
-        out = tests[spec["test"]].body(case)
+        out = run_body(tests[spec["test"]], case)
     except Reject:
         raise StaleReplay(f"{path}: generator rejects the recorded case")
     fid = None
